@@ -8,8 +8,9 @@ channels by comparing their Kraus/unitary operators with a reference channel bui
 constructor -- and compared with the Coq model evaluated by vm_compute on the same input.
 Every real output is ALSO checked directly against the property text (Coq `spec_apply`: original
 gates in order, prescribed channels right after their trigger / right before the measurement for
-readout errors; input circuit not mutated).  Violations on inputs outside the `clean` class of
-Proofs.v are attributed to the defect classes demonstrated by fixed reproducers (known findings).
+readout errors; input circuit not mutated).  NoiseModel.apply was repaired in /repo; the harness
+detects which variant is present (original / repaired / repaired with fresh M copies), evaluates the matching Coq model
+(Model.apply / ModelFixed.apply2) and treats any return of the old defects (REPRO table) as a VIOLATION.
 """
 STATIC = ["C19/Props"]
 import ast
@@ -24,7 +25,7 @@ import numpy as np
 from lib import vcore
 
 HEADER = """From Coq Require Import List Bool Arith ZArith QArith.
-From QV Require Import C19.Model.
+From QV Require Import C19.Model C19.ModelFixed.
 Import ListNotations.
 Local Close Scope Q_scope.
 Local Open Scope nat_scope.
@@ -261,6 +262,13 @@ def canon_queue(opts, out_queue, inp, customs):
         if id(g) in cids:
             res.append((10, [cids[id(g)]], 0))
             continue
+        if type(g).__name__ == "M":
+            # a fresh copy of an input measurement (same qubits, register, basis) stands for that measurement
+            sigm = lambda m: (tuple(m.target_qubits), m.register_name, tuple(m.init_kwargs.get("basis", [])))
+            j = next((i for i, m in enumerate(inp) if type(m).__name__ == "M" and sigm(m) == sigm(g)), None)
+            if j is not None:
+                res.append((0, [j], 0))
+                continue
         name = type(g).__name__
         typ = next((t for t, cn in CLS_OF.items() if cn == name), None)
         if typ is None:
@@ -308,6 +316,22 @@ def canon_model(opts, triples):
 
 
 REJECTED = {}
+VARIANT = {"fixed": False, "copy": False}
+
+
+def detect_variant():
+    """which NoiseModel.apply is in /repo: the original one (measurement re-added by a trailing block) or the
+    repaired one (before/after lists, gate added once), with or without fresh copies of the M gates"""
+    from qibo import Circuit, gates
+    from qibo.noise import NoiseModel
+    c = Circuit(1)
+    c.add(gates.M(0))
+    c.add(gates.H(0))
+    c.add(gates.M(0))
+    out = NoiseModel().apply(c)
+    VARIANT["fixed"] = len(out.queue) == 3
+    VARIANT["copy"] = not any(g is c.queue[0] for g in out.queue)
+    return dict(VARIANT)
 
 
 def run_apply(case):
@@ -317,7 +341,10 @@ def run_apply(case):
     nm, customs = build_noise(case)
     inp = list(c.queue)
     before = snapshot(c)
-    coll0 = [i for i, g in enumerate(inp) if getattr(g, "collapse", False)]
+    if VARIANT["copy"]:
+        coll0 = [i for i, g in enumerate(inp) if type(g).__name__ == "M" and g.init_kwargs.get("collapse")]
+    else:
+        coll0 = [i for i, g in enumerate(inp) if getattr(g, "collapse", False)]
     res = {"circuit": c, "noise": nm, "customs": customs, "inp": inp, "coll0": coll0, "error": None}
     try:
         out = nm.apply(c)
@@ -333,10 +360,13 @@ def run_apply(case):
     if out is not None:
         q = list(out.queue)
         res["out"] = canon_queue(opts, q, inp, customs)
-        ids = {id(g) for g in inp}
-        res["skeleton"] = [id(g) for g in q if id(g) in ids] == [id(g) for g in inp]
-        res["coll_after"] = sorted(i for i, g in enumerate(inp) if getattr(g, "collapse", False))
-        res["meas_after"] = [inp.index(m) for m in out.measurements if any(m is g for g in inp)]
+        res["skeleton"] = [x[1][0] for x in res["out"] if x[0] == 0] == list(range(len(inp)))
+        if VARIANT["copy"]:
+            res["coll_after"] = sorted({x[1][0] for x, g in zip(res["out"], q) if x[0] == 0 and getattr(g, "collapse", False)}
+                                       | set(coll0))
+        else:
+            res["coll_after"] = sorted(i for i, g in enumerate(inp) if getattr(g, "collapse", False))
+        res["meas_after"] = [x[1][0] for x in canon_queue(opts, list(out.measurements), inp, customs) if x[0] == 0]
         res["same_kwargs"] = (out.init_kwargs == c.init_kwargs and type(out) is type(c))
     return res
 
@@ -696,7 +726,8 @@ def eval_cases(run, cases, fname):
             rl = coq_ibmq(case, tags) if "ibmq" in case else coq_rules(case, inp, customs, tags)
             defs.append(f"Definition c{j} : list gate := {gl}.\nDefinition r{j} : list rule := {rl}.\n"
                         f"Definition k{j} : list nat := {nl(real['coll0'])}.\n")
-            exprs.append(f"(show_st (apply_st r{j} k{j} c{j}), clean r{j} k{j} c{j}, diagnose r{j} k{j} c{j}, "
+            fn = "apply2_st" if VARIANT["fixed"] else "apply_st"
+            exprs.append(f"(show_st ({fn} r{j} k{j} c{j}), clean r{j} k{j} c{j}, diagnose r{j} k{j} c{j}, "
                          f"map item_code (spec_apply r{j} c{j}))")
             reals.append(real)
         vals = run.coq_eval(f"{fname}_{lo // 250}.v", HEADER + "\n".join(defs), exprs, timeout=900)
@@ -736,7 +767,7 @@ def judge(run, results, explained, label):
             agree = r["model"] is None
         else:
             agree = (r["model"] is not None and tolist(real["out"]) == r["model"][0]
-                     and sorted(r["model"][2]) == real["coll_after"] and r["model"][1] == real["meas_after"])
+                     and sorted(set(r["model"][2])) == real["coll_after"] and r["model"][1] == real["meas_after"])
         if not agree:
             run.find(f"corr:{label}:{h}", "Coq model of NoiseModel.apply and the implementation disagree",
                      {"case": strip(case), "model": r["model"], "real": real.get("out"), "error": real["error"],
@@ -762,7 +793,12 @@ def judge(run, results, explained, label):
         if ok:
             continue
         reasons = set(r["diag"])
-        if r["clean"] or not reasons or not reasons <= explained:
+        if VARIANT["fixed"]:
+            # repaired apply: the text of the property must hold on EVERY input; with shared M objects only the
+            # mutation of the input (collapse flag) is still attributable to the known classes 3 / 6 / 7
+            only_mutation = all(w.startswith("input circuit mutated") for w in why)
+            reasons = (reasons & {3, 6, 7}) if (only_mutation and not VARIANT["copy"]) else set()
+        if (r["clean"] and not VARIANT["fixed"]) or not reasons or not reasons <= explained:
             run.find(f"apply:unexplained:{h}", "NoiseModel.apply violates the property on an input outside the known defect classes: "
                      + "; ".join(why), {"case": strip(case), "real": real.get("out"), "expected": r["spec"],
                                         "reasons": sorted(reasons), "clean": r["clean"]})
@@ -781,7 +817,7 @@ def run_reproducers(run):
     for (key, code, what, _), r in zip(REPRO, results):
         real = r["real"]
         agree = (real["error"] is None and r["model"] is not None and tolist(real["out"]) == r["model"][0]
-                 and sorted(r["model"][2]) == real["coll_after"])
+                 and sorted(set(r["model"][2])) == real["coll_after"])
         if not agree:
             run.find(f"corr:repro:{key}", "Coq model and implementation disagree on a fixed reproducer",
                      {"case": r["case"], "model": r["model"], "real": real.get("out")}, concrete=False)
@@ -1101,12 +1137,16 @@ def main(run):
             for m in re.finditer(r"([A-Za-z_][\w.]*) :", pa.get(nme, "")):
                 run.axioms.add(m.group(1))
     run.notes["print_assumptions"] = pa
-    run.refuted += [n for n in names if n.endswith("_refuted")]
+    run.notes["historical"] = ("theorems historical_old_apply_* are about the algorithm that was in qibo before the repair of NoiseModel.apply "
+                               "(Model.apply): it was exact on `clean` inputs only and the full-strength statements were false of it")
     run.not_proved += [
-        "noise_apply_skeleton / noise_apply_exact at full strength: FALSE of the faithful model (see *_refuted); proved for the `clean` inputs only",
+        "noise_apply_exact / noise_apply_skeleton / noise_apply_no_keyerror hold at FULL strength for the repaired apply (ModelFixed.v); "
+        "'the original gates' is read up to fresh, equivalent copies of the measurement gates (same qubits, register name, basis), which is "
+        "what keeps the input circuit unmutated",
         "convergence of finite-shot frequencies (statistics): outside the proof; the finite expectation identity is proved (trajectory_expectation)",
         "non-unitary Kraus channels have no trajectory semantics in qibo (density matrix only): not part of trajectory_expectation",
     ]
+    run.notes["noise_apply_variant"] = detect_variant()
     # fixed reproducers of the known defect classes
     explained = run_reproducers(run)
     run.notes["defect_classes_reproduced"] = sorted(explained)
